@@ -13,6 +13,8 @@
 //                        sectors listed in MASK ("all", "-", or i,j,...) keep the new content, the
 //                        others are put back to the earlier content (zero-filled holes; length = max
 //                        of old length and end of last kept sector).  Answers w=... like save.
+//   ksave ...            same arguments as csave, but the save runs in a forked child that is *killed* (_exit) inside the
+//                        interposed write() at the crash point — a process that really stops there; answers w=killed
 //   load SID             real load:  ok T HEX | none
 //   probe SID            real load of a *copy* of SID's file (non-destructive): ok T HEX | none
 //   remove SID           real remove
@@ -25,6 +27,7 @@
 #include <sys/types.h>
 #include <sys/stat.h>
 #include <sys/syscall.h>
+#include <sys/wait.h>
 #include <dirent.h>
 #include <fcntl.h>
 #include <unistd.h>
@@ -40,6 +43,7 @@ static bool g_armed = false;          // inside a real save()
 static long g_full = -1;              // number of complete write() calls allowed (-1: unlimited)
 static size_t g_partial = 0;          // bytes of the next call that still reach the file
 static long g_calls = 0;
+static bool g_kill = false;           // stop the process (child) at the crash point instead of failing the call
 static std::string g_wlog;
 
 extern "C" time_t time(time_t *t) { if(t) *t=g_now; return g_now; }
@@ -63,7 +67,7 @@ extern "C" ssize_t write(int fd,const void *buf,size_t n)
 		if(!g_wlog.empty()) g_wlog+=",";
 		g_wlog+=std::to_string(todo)+"@"+std::to_string((long long)off);
 	}
-	if(fail) { errno=EIO; return -1; }
+	if(fail) { if(g_kill) _exit(0); errno=EIO; return -1; }
 	return r;
 }
 
@@ -170,23 +174,40 @@ static std::string run(std::vector<std::string> const &w)
 				std::string d; if(!vh::unhex(op[2],d)) return "bad-op";
 				write_file(path_of(op[1]),d); a="ok";
 			}
-			else if((op[0]=="save" && op.size()==4) || (op[0]=="csave" && op.size()==8)) {
+			else if((op[0]=="save" && op.size()==4) || ((op[0]=="csave" || op[0]=="ksave") && op.size()==8)) {
 				if(!good_name(op[1]) || op[1].size()<4) return "bad-op";
 				std::string d; if(!vh::unhex(op[3],d)) return "bad-op";
 				time_t t=strtoll(op[2].c_str(),0,10);
-				bool crash=(op[0]=="csave");
+				bool crash=(op[0]!="save");
+				bool kill=(op[0]=="ksave");
 				std::string old; bool had=read_file(path_of(op[1]),old);
 				(void)had;
 				g_calls=0; g_wlog.clear();
 				g_full=-1; g_partial=0;
 				if(crash) { g_full=strtol(op[4].c_str(),0,10); g_partial=strtoull(op[5].c_str(),0,10); }
 				std::string note;
-				g_armed=true;
-				try { st->save(op[1],t,d); }
-				catch(cppcms::cppcms_error const &) { note=" err"; }
-				catch(...) { g_armed=false; throw; }
-				g_armed=false;
-				a="w="+(g_wlog.empty()?std::string("-"):g_wlog);
+				if(kill) {
+					std::cout.flush();
+					pid_t pid=fork();
+					if(pid<0) throw std::runtime_error("harness: fork failed");
+					if(pid==0) {
+						g_kill=true; g_armed=true;
+						try { st->save(op[1],t,d); } catch(...) {}
+						_exit(0);
+					}
+					int status=0;
+					while(waitpid(pid,&status,0)<0 && errno==EINTR) ;
+					if(!WIFEXITED(status) || WEXITSTATUS(status)!=0) throw std::runtime_error("harness: child died abnormally");
+					a="w=killed";
+				}
+				else {
+					g_armed=true;
+					try { st->save(op[1],t,d); }
+					catch(cppcms::cppcms_error const &) { note=" err"; }
+					catch(...) { g_armed=false; throw; }
+					g_armed=false;
+					a="w="+(g_wlog.empty()?std::string("-"):g_wlog);
+				}
 				if(crash) {
 					size_t S=strtoull(op[6].c_str(),0,10);
 					if(S==0) return "bad-op";
